@@ -223,9 +223,14 @@ inductive TI
   | tuple (n : Nat)
 deriving DecidableEq, Repr
 
+/-- props/C05.fix-7.diff: `if int(n)*k > len(f.buf) { panic(error) }` before the allocation (every
+element description needs at least k bytes); absent from the unchanged code -/
+def guardCount (fx : Bool) (need : Nat) : P Unit := fun st =>
+  if fx && need > st.buf.length then .err st.alloc else .ok () st
+
 mutual
 /-- readTypeInfo -/
-def readTypeInfo : Nat → P TI
+def readTypeInfo (fx : Bool) : Nat → P TI
   | 0 => crashAt .fuel
   | f+1 => do
     let id ← readShort
@@ -235,51 +240,53 @@ def readTypeInfo : Nat → P TI
                 else pure id)
     if typ == 0x31 then do
       let n ← readShort
+      guardCount fx (2 * n)
       alloc (16 * n)
-      typeLoop f false n
+      typeLoop fx f false n
       pure (.tuple n)
     else if typ == 0x30 then do
       let _ ← readString
       let _ ← readString
       let n ← readShort
+      guardCount fx (4 * n)
       alloc (32 * n)
-      typeLoop f true n
+      typeLoop fx f true n
       pure .other
     else if typ == 0x21 then do
-      let _ ← readTypeInfo f
-      let _ ← readTypeInfo f
+      let _ ← readTypeInfo fx f
+      let _ ← readTypeInfo fx f
       pure .other
     else if typ == 0x20 || typ == 0x22 then do
-      let _ ← readTypeInfo f
+      let _ ← readTypeInfo fx f
       pure .other
     else pure .other
 /-- the element loops of tuple (`named = false`) and UDT (`named = true`) descriptions -/
-def typeLoop : Nat → Bool → Nat → P Unit
+def typeLoop (fx : Bool) : Nat → Bool → Nat → P Unit
   | 0, _, _ => crashAt .fuel
   | f+1, named, n =>
     match n with
     | 0 => pure ()
     | n+1 => do
       (if named then do let _ ← readString; pure () else pure ())
-      let _ ← readTypeInfo f
-      typeLoop f named n
+      let _ ← readTypeInfo fx f
+      typeLoop fx f named n
 end
 
 /-- entry point with the fuel the proofs show sufficient: |unread bytes| + 1 -/
-def readTypeInfoTop : P TI := fun st => readTypeInfo (st.buf.length + 1) st
+def readTypeInfoTop (fx : Bool) : P TI := fun st => readTypeInfo fx (st.buf.length + 1) st
 
 /-- readCol -/
-def readCol (globalSpec : Bool) : P TI := do
+def readCol (fx : Bool) (globalSpec : Bool) : P TI := do
   (if !globalSpec then do let _ ← readString; let _ ← readString; pure () else pure ())
   let _ ← readString
-  readTypeInfoTop
+  readTypeInfoTop fx
 
 /-- the column loops of parseResultMetadata / parsePreparedMetadata; returns the columns reversed -/
-def colLoop (globalSpec : Bool) : Nat → List TI → P (List TI)
+def colLoop (fx : Bool) (globalSpec : Bool) : Nat → List TI → P (List TI)
   | 0, acc => pure acc
   | n+1, acc => do
-    let c ← readCol globalSpec
-    colLoop globalSpec n (c :: acc)
+    let c ← readCol fx globalSpec
+    colLoop fx globalSpec n (c :: acc)
 
 def bit (u : Nat) (k : Nat) : Bool := (u / 2 ^ k) % 2 == 1
 
@@ -288,7 +295,7 @@ structure Meta where
   colCount : Nat
 
 /-- shared tail of both metadata parsers (from the paging state on) -/
-def metaTail (flags : Nat) (colCount : Nat) : P Meta := do
+def metaTail (fx : Bool) (flags : Nat) (colCount : Nat) : P Meta := do
   (if bit flags 1 then do
       let p ← readBytes
       alloc (p.getD []).length
@@ -299,15 +306,15 @@ def metaTail (flags : Nat) (colCount : Nat) : P Meta := do
     (if bit flags 0 then do let _ ← readString; let _ ← readString; pure () else pure ())
     -- `make([]ColumnInfo, colCount)` below 1000 columns, append (amortised) otherwise
     (if colCount < 1000 then alloc (64 * colCount) else pure ())
-    let cols ← colLoop (bit flags 0) colCount []
+    let cols ← colLoop fx (bit flags 0) colCount []
     (if colCount < 1000 then pure () else alloc (128 * colCount))
     pure { cols := cols.reverse, colCount := colCount }
 
-def parseResultMetadata : P Meta := do
+def parseResultMetadata (fx : Bool) : P Meta := do
   let flags ← readIntU
   let colCount ← readInt
   if colCount < 0 then fail
-  else metaTail flags colCount.toNat
+  else metaTail fx flags colCount.toNat
 
 def parsePreparedMetadata (fx : Bool) (proto : Nat) : P Meta := do
   let flags ← readIntU
@@ -325,7 +332,7 @@ def parsePreparedMetadata (fx : Bool) (proto : Nat) : P Meta := do
             alloc (8 * pk.toNat)
             loopN pk.toNat (do let _ ← readShort; pure ())
       else pure ())
-    metaTail flags colCount.toNat
+    metaTail fx flags colCount.toNat
 
 inductive Frame
   | simple (kind : String)
@@ -374,7 +381,7 @@ def parseResultFrame (fx : Bool) (proto : Nat) : P Frame := do
   let kind ← readInt
   if kind == 1 then pure (.simple "resultVoidFrame")
   else if kind == 2 then do
-    let m ← parseResultMetadata
+    let m ← parseResultMetadata fx
     let numRows ← readInt
     if numRows < 0 then fail else pure (.rows m numRows.toNat)
   else if kind == 3 then do
@@ -385,7 +392,7 @@ def parseResultFrame (fx : Bool) (proto : Nat) : P Frame := do
     let _ ← parsePreparedMetadata fx proto
     if proto < 2 then pure (.simple "resultPreparedFrame")
     else do
-      let _ ← parseResultMetadata
+      let _ ← parseResultMetadata fx
       pure (.simple "resultPreparedFrame")
   else if kind == 5 then parseResultSchemaChange proto
   else fail
@@ -467,6 +474,25 @@ def parseFrameP (fx : Bool) (proto : Nat) (resp : Bool) (flags op : Nat) : P Fra
 
 def parseFrame (fx : Bool) (proto : Nat) (resp : Bool) (flags op : Nat) (body : Bytes) : Res Frame :=
   parseFrameP fx proto resp flags op { buf := body, alloc := 0 }
+
+/-! ### recursion depth (goroutine stack)
+
+readTypeInfo recurses once per nesting level of a type description (2 body bytes per level for
+list<list<…>>), getCassandraType once per `frozen<` (8 bytes), parseType once per `A(` (2 bytes).
+Go's goroutine stack limit is not part of the outcome model above; what is RECORDED here (measured:
+a depth of 100000 overflows a 32 MiB stack, so each level takes at least 336 bytes) is enough to
+answer the subprocess scenario `deep <what> <depth>` for depths far from the threshold, and gives
+≈ 3·10^6 levels ≈ a 6 MB frame body for Go's default 1 GB limit (a 4 MB body was observed to kill
+the process). A stack overflow is fatal: no recover, the process exits (KF-C05-13). -/
+
+def stackPerLevel : Nat := 336
+def deepStackLimit : Nat := 33554432
+
+/-- `fx`: with props/C05.fix-9.diff readTypeInfo refuses more than 128 nesting levels (an error) -/
+def deepOutcome (fx : Bool) (what : String) (depth : Nat) : String :=
+  if fx && what == "typeinfo" then "survived" else
+  let fn := if what == "typeinfo" then "readTypeInfo" else if what == "gct" then "getCassandraType" else "parseClassNode"
+  if depth * stackPerLevel ≥ deepStackLimit then "crash:" ++ fn ++ ":stackoverflow" else "survived"
 
 /-! ### readHeader / readFrame (frame.go:443-540) -/
 
